@@ -20,6 +20,7 @@ type hSink struct {
 	failAt  int
 	after   int // number of calls made after the failing one
 	failed  bool
+	atFail  int // len(buf) when the failure was injected
 }
 
 func (s *hSink) Write(p []byte) (int, error) {
@@ -30,6 +31,7 @@ func (s *hSink) Write(p []byte) (int, error) {
 	}
 	if i == s.failAt {
 		s.failed = true
+		s.atFail = len(s.buf)
 		return 0, hErrInjected
 	}
 	if s.failed {
@@ -125,6 +127,14 @@ func (o hOpts) options() []Option {
 func hInput() []byte {
 	n := vfParam("n")
 	period := vfParam("period")
+	if period < 0 {
+		// concrete content (used where symbolic content would only pose hash-collision searches)
+		in := make([]byte, n)
+		for i := range in {
+			in[i] = byte(0x61 + (i*7+i/3)%(-period))
+		}
+		return in
+	}
 	if period <= 0 || period >= n {
 		return vfBytes("in", n)
 	}
